@@ -1016,19 +1016,37 @@ class Interp:
                         skipping = False
                         out.append(x)
                     return ("list", out)
+                # on a consuming iterator the short-circuiting searches take every element up to and including the one that decides
+                def _consume(n_taken):
+                    if isinstance(recv, PyIter):
+                        del recv[:n_taken]
                 if m == "position":
                     for idx, x, r in res:
                         if self.truth(r):
+                            _consume(idx + 1)
                             return ("Some", idx)
+                    _consume(len(res))
                     return ("None",)
                 if m == "any":
-                    return any(self.truth(r) for _, _, r in res)
+                    for idx, x, r in res:
+                        if self.truth(r):
+                            _consume(idx + 1)
+                            return True
+                    _consume(len(res))
+                    return False
                 if m == "all":
-                    return all(self.truth(r) for _, _, r in res)
+                    for idx, x, r in res:
+                        if not self.truth(r):
+                            _consume(idx + 1)
+                            return False
+                    _consume(len(res))
+                    return True
                 if m == "find":
                     for idx, x, r in res:
                         if self.truth(r):
+                            _consume(idx + 1)
                             return ("Some", x)
+                    _consume(len(res))
                     return ("None",)
                 if m == "find_map":
                     for idx, x, r in res:
